@@ -17,6 +17,7 @@ CLASSES = [["a", "b"], ["a", "b", "c"], ["pos", "w"], ["x"]]
 MODEL_EXTRA = ["e", "f", "g"]
 COLL_KEYS = ["m", "n", "k", "q", "r", "s"]
 NPRIORS = 14
+SETITEM_TRANSFERS = True # pinned code: Collection.__setitem__ copies the id of the replaced value into the assigned object (Model.v: setitem_transfers)
 DERIVE_THAWS = True      # pinned code: Model.gaussian_prior_model_for_arguments starts with self.unfreeze() (Model.v: derive_thaws)
 
 
@@ -366,10 +367,13 @@ class Mirror:
         if k == "failwalk":
             return {"exc": "TypeError"}, ["failing-walk"]
         if k == "derive":
-            labels = ["derive-thaws-frozen"] if self.derive_would_thaw(o) else []
+            labels = ["derive-thaws-frozen"] if DERIVE_THAWS and self.derive_would_thaw(o) else []
             if DERIVE_THAWS:
                 self.derive_thaw(o)
-            return ({"exc": "RecursionError"} if self.loops(o) else {"ok": None}), labels
+            if self.loops(o):          # self-referential composition: no reference semantics for prior passing
+                self.uncertain |= self.reach(o)
+                return None, labels
+            return {"ok": None}, labels
         if k == "copy":
             self.copy_base = len(self.objs)
             self.copy(o)
@@ -377,7 +381,7 @@ class Mirror:
         setitem_labels = []
         if k == "setitem":                       # Collection.__setitem__; reference semantics: plain assignment
             old = ob.get(str(op[2]))
-            if not ob.frozen and old is not None and old[0] != "c":
+            if SETITEM_TRANSFERS and not ob.frozen and old is not None and old[0] != "c":
                 if self.is_pm(op[3]) and self.objs[op[3][1]].frozen:
                     return {"exc": "AssertionError"}, []        # the id transfer is refused by the frozen value
                 if op[3][0] == "p":
@@ -603,10 +607,10 @@ class Gen:
             name = r.choice(ob.attrs)[0] if r.random() < 0.9 else "zz"
             return ["del", o, name]
         if x < 0.90:
-            return ["copy", r.choice(pms)] if len(m.objs) < 40 else None
+            return (["copy", r.choice(pms)] + (["pickle"] if r.random() < 0.4 else [])) if len(m.objs) < 40 else None
         if x < 0.93:
             o = r.choice(pms)
-            if not self.dirty and m.derive_would_thaw(o):
+            if (not self.dirty and m.derive_would_thaw(o)) or m.loops(o):
                 return None
             return ["derive", o]
         if x < 0.96:
@@ -652,7 +656,7 @@ class Gen:
 def scenario_cases():
     """Hand-written histories: one per mechanism (always run first)."""
     P = lambda i: ["p", i]
-    pri = [[p, 0, 10] for p in range(NPRIORS)]
+    pri = [[p, 0, 8] for p in range(NPRIORS)]
     base = lambda ops: {"classes": CLASSES, "priors": pri, "ops": ops}
     leafm = lambda a, b: ["new", "model", 0, [["a", P(a)], ["b", P(b)]], 0]
     qs = lambda o: [["query", o, ["count"]], ["query", o, ["paths"]], ["query", o, ["ordered"]], ["query", o, ["info"]],
@@ -698,6 +702,26 @@ def scenario_cases():
     # assigning a frozen model to an unfrozen Model / building a Model around it
     out.append(base([leafm(0, 1), ["freeze", 0], ["new", "model", 3, [["x", ["r", 0]]], 0], leafm(2, 3), ["set", 1, "a", ["r", 0]],
                      ["new", "coll", None, [["m", ["r", 0]]], 0], ["query", 2, ["count"]], ["query", 1, ["count"]]]))
+    # include_zero_dimension only differs in a kwarg of the cache key: frozen root over a constant-only model
+    out.append(base([["new", "model", 0, [["a", ["c", 1]], ["b", ["c", 2]]], 0], leafm(0, 1),
+                     ["new", "coll", None, [["m", ["r", 0]], ["n", ["r", 1]]], 0], ["freeze", 2],
+                     ["query", 2, ["models", None, False]], ["query", 2, ["models", None, True]], ["query", 2, ["models", 0, False]],
+                     ["query", 2, ["models", 0, True]], ["query", 2, ["unit", [0, 4]]], ["query", 2, ["allpaths"]]]))
+    # item assignment over an existing key: ids of shared priors are rewritten
+    out.append(base([["new", "coll", None, [["m", P(0)], ["n", P(3)], ["k", P(1)]], 0], ["query", 0, ["count"]], leafm(4, 5), leafm(6, 7),
+                     ["new", "coll", None, [["m", ["r", 1]], ["n", ["r", 2]]], 0], ["setitem", 3, "m", P(3)], ["setitem", 3, "n", P(0)],
+                     ["query", 0, ["ordered"]], ["query", 0, ["count"]], ["query", 0, ["allpaths"]], ["query", 0, ["unit", [1, 2, 3]]],
+                     ["copy", 0], ["query", 4, ["ordered"]], ["setitem", 3, "q", P(8)], ["setitem", 3, "q", ["c", 3]],
+                     ["freeze", 1], ["setitem", 3, "q", ["r", 1]], ["new", "coll", None, [["k", P(9)]], 0], ["setitem", 5, "k", ["r", 1]],
+                     ["query", 3, ["count"]]]))
+    # prior passing on a frozen collection
+    out.append(base([leafm(0, 1), ["new", "coll", None, [["m", ["r", 0]], ["k", P(2)]], 0], ["freeze", 1], ["query", 1, ["count"]],
+                     ["derive", 1], ["set", 0, "e", P(3)], ["query", 1, ["count"]], ["query", 1, ["unit", [0, 1, 2]]],
+                     ["derive", 0], ["unfreeze", 1], ["derive", 1], ["query", 1, ["count"]]]))
+    # self-reference: the recursion guard truncates the walk at the loop
+    out.append(base([["new", "coll", None, [["m", P(0)]], 0], ["set", 0, "q", ["r", 0]], ["set", 0, "n", P(1)], ["query", 0, ["count"]],
+                     ["query", 0, ["paths"]], ["query", 0, ["info"]], ["freeze", 0], ["query", 0, ["count"]], ["copy", 0],
+                     ["query", 1, ["count"]], ["query", 0, ["models", None, True]], ["unfreeze", 0], ["del", 0, "q"], ["query", 0, ["count"]]]))
     return out
 
 
@@ -755,6 +779,8 @@ def oracle(case, res, limit=6):
         if k in ("set", "setitem"):
             target = m.set_target(op[1], op[2])
         target_uncertain = target is not None and (target in m.uncertain or op[1] in m.uncertain)
+        if k in ("freeze", "unfreeze"):      # the traversal passes a frozen object whose cached child list is stale
+            target_uncertain = any(m.lost.get(f) for f in m.reach(op[1]))
         exp, labels = m.apply(op)
         got = {"exc": r["exc"]} if "exc" in r else {"ok": r.get("ok")}
         if k == "query":
@@ -780,6 +806,8 @@ def oracle(case, res, limit=6):
             if "exc" not in got:
                 fail("the failing call did not fail", [], i)
                 break
+        elif k == "derive" and exp is None:
+            pass
         elif k == "derive":
             if got != exp:
                 fail("derive on object %d: outcome %s, expected %s" % (op[1], got, exp), pre_relevant, i)
@@ -803,7 +831,8 @@ def oracle(case, res, limit=6):
                 fail(what, classes, i)
                 break
             if k == "new" and "ok" in got and r.get("attrs") != m.objs[-1].attrs:
-                fail("constructed object has attributes %s, expected %s" % (r.get("attrs"), m.objs[-1].attrs), [], i)
+                fail("constructed object has attributes %s, expected %s" % (r.get("attrs"), m.objs[-1].attrs),
+                     ["setitem-existing-key"] if any(v[0] == "p" and v[1] in m.rewritten for _, v in m.objs[-1].attrs) else [], i)
                 break
             if k == "copy":
                 new = r.get("new", [])
@@ -987,24 +1016,30 @@ Open Scope string_scope. Open Scope list_scope."""
 # run
 # ---------------------------------------------------------------------------
 def run(ctx):
-    ctx.rule = ("a case is an operation history (new / query[count, paths, ordered ids, instance for a vector, info] / freeze / "
-                "unfreeze / setattr / setitem / append / delattr / deepcopy / failing walk call; queries also models_with_type) over a heap of Model, Collection and TuplePrior "
-                "objects with shared children and several roots; 'clean' histories never modify anything below a frozen object and "
-                "contain no failing walk call, 'dirty' ones do both; a case is non-trivial when some query comes after a freeze and "
-                "after a later set/append/del/unfreeze/copy/failing call; distinct = distinct abstract history")
+    ctx.rule = ("a case is an operation history (new / query[count, paths, ordered ids, instance for a vector, instance for a unit "
+                "vector, all_paths, info, models_with_type] / freeze / unfreeze / setattr (incl. self-reference) / Collection.__setitem__ "
+                "(new and existing keys) / append / delattr / deepcopy and pickle round trip / prior passing (mapper_from_prior_arguments) / "
+                "failing walk call) over a heap of Model, Collection and TuplePrior objects with shared children and several roots; modes: "
+                "'clean' (nothing is modified below a frozen object, no id transfer, no thawing derive), 'stale', 'ids', 'poison'; a case is "
+                "non-trivial when some query comes after a freeze and after a later set/setitem/append/del/unfreeze/copy/derive/failing call; "
+                "distinct = distinct abstract history")
     ctx.trusted = [
         "Coq 8.16.1 kernel incl. vm_compute",
         "correspondence harness harness/vcheck/c13.py + harness/impl/c13_impl.py (abstraction of live objects to (kind, public __dict__) "
-        "and of answers to paths / prior ids / instance trees / the lists model.info is rendered from)",
-        "modelled, not verified: CPython dict order, attribute lookup, copy.deepcopy, id(); TextFormatter/find_groups rendering of "
+        "and of answers to paths / current prior ids / instance trees / the lists model.info is rendered from; the driver fixes "
+        "Prior.id = index and ModelObject.id = 1000 + object number so that id transfers are comparable)",
+        "modelled, not verified: CPython dict order, attribute lookup, copy.deepcopy / pickle, id(); TextFormatter/find_groups rendering of "
         "model.info is checked to be a function of the compared lists by re-rendering in the driver",
     ]
     ctx.assumptions = [
-        "the walk is modelled with fuel 12 (object graphs deeper than 12 are outside the model; generated graphs have depth <= 6)",
+        "the walk is modelled with fuel 12 (object graphs deeper than 12 are outside the model; generated graphs have depth <= 6; "
+        "C13_freeze_reaches_descendants carries the success of freeze as a hypothesis); only direct self-references are generated as cycles",
         "Python object identity is an abstract object id; reuse of id() values after garbage collection is not modelled "
         "(the driver keeps every object alive and clears the recursion cache between histories)",
-        "answers are compared for prior_count, path_priors_tuples, prior_tuples_ordered_by_id, instance_from_vector, info and "
-        "models_with_type (all seven frozen_cache functions are exercised); instance_from_unit_vector, all_paths, all_names are not queried",
+        "all seven frozen_cache functions are exercised; uniform priors with integer limits whose width is a multiple of 4 and units k/4 "
+        "(exact arithmetic); assertions, Collection.remove, take_attributes, __add__, list/dict/int valued attributes are not generated",
+        "the reference (Mirror) treats prior ids as immutable and frozen flags as untouched by prior passing: the two places where the "
+        "code does otherwise are the recorded findings; answers equal to a stale snapshot are not distinguished from other wrong answers",
     ]
     built = ctx.build()
     cases = gen_cases(ctx)
@@ -1077,10 +1112,13 @@ def run(ctx):
 
 MANIFEST = {
     "text": "Coq 8.16 theorems over an executable heap model of Model/Collection/TuplePrior objects with frozen_cache, assert_not_frozen, "
-            "recursive freeze/unfreeze, deepcopy and the process-wide recursion cache: every query of every history equals the uncached "
-            "query on the current composition provided no modification lands below a frozen object and the recursion cache is clean "
-            "(both exclusions are refuted by witnesses and recorded as findings); frozen objects reject setattr/append; plus vm_compute "
-            "correspondence of the model with the running code on generated histories and a direct oracle against a cache-free reference",
+            "recursive freeze/unfreeze, deepcopy, prior passing, Collection.__setitem__ id transfer and the process-wide recursion cache: "
+            "every query of every guarded history equals the uncached query on the current composition (guard: nothing reachable from a "
+            "frozen object changes composition or prior ids; decidable, checked on every label-free generated history); freeze reaches "
+            "every Model/Collection descendant, which then reject setattr/append/setitem; setattr is local; the unguarded statements "
+            "(stale ancestor, tuple members, item assignment rewriting shared ids, prior passing thawing components) are refuted by "
+            "witnesses and recorded as findings; plus vm_compute correspondence of the model with the running code on generated "
+            "histories and a direct oracle against a cache-free reference",
     "note": "Trusted: Coq kernel + vm_compute, the abstraction in harness/vcheck/c13.py and harness/impl/c13_impl.py. Object identity is "
             "abstract (id() reuse not modelled), walk fuel 12, info is compared through the lists it is rendered from.",
     "technique": "machine-checked proof in Coq (state-machine model, invariant) + vm_compute correspondence",
